@@ -141,6 +141,7 @@ func DefaultCase(r *rand.Rand, name string, o DefaultOpts) *Case {
 	fnCtx := r.Intn(3) == 0
 	fnErr := r.Intn(3) == 0
 	defUpdate := r.Intn(2) == 0
+	skipCopyDefault := false
 	flags := vref.Flags{DefaultUpdate: defUpdate}
 	var convLines, methLines []string
 	place := func(line string, set func(f *vref.Flags)) {
@@ -157,6 +158,12 @@ func DefaultCase(r *rand.Rand, name string, o DefaultOpts) *Case {
 	}
 	if defUpdate {
 		place("default:update", func(f *vref.Flags) {})
+	}
+	if r.Intn(4) == 0 {
+		// identical field types are passed through; nothing else may be imported or shared for that
+		convLines = append(convLines, "skipCopySameType")
+		flags.SkipCopy = true
+		skipCopyDefault = true
 	}
 	noFlag := false
 	if srcPtr && !tgtPtr {
@@ -241,7 +248,7 @@ func DefaultCase(r *rand.Rand, name string, o DefaultOpts) *Case {
 	if nv == 0 {
 		nv = 40
 	}
-	convFlags := vref.Flags{}
+	convFlags := vref.Flags{SkipCopy: skipCopyDefault}
 	cv.Spec = &vref.Spec{Seed: o.Seed, NValues: nv, Monitors: []string{"default"}, Conv: convFlags,
 		Funcs: []*vref.FuncSpec{{Key: "fn:NewT", Kind: "default", Roles: roles}}}
 	c.Convs = []*Converter{cv}
@@ -249,6 +256,7 @@ func DefaultCase(r *rand.Rand, name string, o DefaultOpts) *Case {
 	c.Feature("shape", fmt.Sprintf("srcptr=%v,tgtptr=%v,fnptr=%v", srcPtr, tgtPtr, fnPtr))
 	c.Feature("fn", fmt.Sprintf("source=%v,ctx=%v,err=%v", fnSource, fnCtx, fnErr))
 	c.Feature("defaultupdate", fmt.Sprint(defUpdate))
+	c.Feature("skipcopy", fmt.Sprint(skipCopyDefault))
 	c.Feature("izv", fmt.Sprintf("b%v-s%v-n%v", flags.IZBasic, flags.IZStruct, flags.IZNillable))
 	c.Feature("format", o.Format)
 	if noFlag {
@@ -334,6 +342,15 @@ func PointerCase(r *rand.Rand, name string, o DefaultOpts) (*Case, bool) {
 	if skip {
 		convLines = append(convLines, "skipCopySameType")
 		flags.SkipCopy, convFlags.SkipCopy = true, true
+	}
+	switch r.Intn(6) {
+	case 0:
+		// default:update without any goverter:default must not change anything
+		convLines = append(convLines, "default:update")
+		c.Feature("defaultupdate-inherited", "conv")
+	case 1:
+		c.Args = append(c.Args, "-g", "default:update yes")
+		c.Feature("defaultupdate-inherited", "cli")
 	}
 	// does the value in effect reach the position? generated sub-methods see the converter level only
 	effective := flags.UseZero
